@@ -10,7 +10,7 @@ cd "$wt" || exit 2
 if ! git apply "$patch" 2>/tmp/apply_$$.err; then echo "PATCH DOES NOT APPLY"; head -5 /tmp/apply_$$.err; cd /; git -C /repo worktree remove --force "$wt"; rm -f /tmp/apply_$$.err; exit 3; fi
 rm -f /tmp/apply_$$.err
 cd /verif
-VERIF_REPO="$wt" timeout 3000 ./check "$prop" --tier "$tier" > /tmp/seedeval_$$.out 2>&1
+VERIF_EVIDENCE_DIR=/tmp/wt/evidence_seed VERIF_REPO="$wt" timeout 3000 ./check "$prop" --tier "$tier" > /tmp/seedeval_$$.out 2>&1
 rc=$?
 grep -E "^VIOLATION|^KNOWN|^MACHINERY|what:|^C[0-9]+ (quick|thorough)" /tmp/seedeval_$$.out | cut -c1-260 | head -12
 echo "rc=$rc drift_lines=$(grep -c '^DRIFT' /tmp/seedeval_$$.out)"
